@@ -152,7 +152,7 @@ PROPS = {
         assumptions=['pandas >= 3 copy-on-write semantics (measured in this sandbox); calls '
                      'listed under assumed_read_only_calls do not write their arguments']),
     'C18': dict(
-        rules=[diff.diff_orient, diff.wrap_rules, diff.res_rules],
+        rules=[diff.diff_orient, diff.diff_sym, diff.wrap_rules, diff.res_rules],
         decided=['difference is +first -second on every path, whichever input is denser',
                  'angle reduction maps every real angle into (-180, 180] congruent mod 360 '
                  '(interval proof, array and scalar arms)',
@@ -162,7 +162,7 @@ PROPS = {
                    'first-order recovery of a perturbation (numerical)']),
     'C14': dict(
         rules=[sensor.sm_names, sensor.sm_count, sensor.sm_accum, sensor.sm_sign, sensor.sm_apply,
-               sensor.sm_gate, purity.rng_src, purity.rng_fwd],
+               sensor.sm_gate, purity.rng_src, purity.rng_fwd, layout.corr_pair],
         decided=['the flag gating the reading-dependent part of the output matrix is true exactly '
                  'when some scale/misalignment state exists (decided by length of the index list)',
                  'state names produced by estimator and simulator and parsed by the estimator '
@@ -199,7 +199,7 @@ PROPS = {
     'C12': dict(
         rules=[layout.est_rules, sensor.sm_accum, sensor.sm_sign,
                lambda c: sched.sched_handover(c, (sched.FB,)), kal.q_psd, idxdom.idx_domain,
-               interp.interp_rules, interp.fb_epoch],
+               interp.interp_rules, interp.fb_epoch, layout.corr_pair],
         decided=['both filters reset both sensor models before any use (re-run reproducibility)',
                  'feedback effects (set_pva, update_estimates, correct) only inside the '
                  'measurement-due block: with no epoch in the span the loop is plain integration '
